@@ -638,7 +638,13 @@ def prunestate(ctx, pid):
             elif not any(s_[2][1:] == (key, val) for s_ in stored):
                 probs.append("a hashed root is not stored")
     c = "root-store:HexaryTrie._set_raw_node"
-    if probs:
+    starred = any(isinstance(nd, ast.Call) and (any(isinstance(a, ast.Starred) for a in nd.args) or any(k.arg is None for k in nd.keywords))
+                  and any(t.kind == "def" and t.func.name == "_set_db_value" for t in ctx.R.resolve_call(nd, f, count=False))
+                  for nd in ast.walk(f.node))
+    if probs and starred and all("not stored" in x for x in probs):
+        # _set_db_value(*entry): the rule binds positional key / value arguments only - a refusal, not a verdict
+        ctx.unsure(c, f.loc(), "the store call passes its key / value through * or ** unpacking; cannot bind them (%s)" % probs[0])
+    elif probs:
         ctx.bad(c, f.loc(), probs[0], witness={"problems": sorted(set(probs))})
     elif seen != {"blank", "short", "hashed"}:
         ctx.unsure(c, f.loc(), "root cases found: %s" % sorted(seen))
